@@ -346,3 +346,165 @@ Lemma step_events_inv cfg d qs st l : RInv d st ->
 Proof.
   intros HR. step_start Hcw HW HR. destruct (events cfg); cbn [negb]; [|done]. destruct l as [|a]; [done|]. by destruct (w !! a).
 Qed.
+
+(* ---------------------------------------------------------------- keyed operations *)
+
+Lemma make_key_handle cfg d k t h0 : match make_key cfg d k t h0 with KTyped _ h | KAny h => h = h0 | KStop _ => True end.
+Proof.
+  unfold make_key. destruct (match k with KEnt => _ | KDir => _ end); [done|].
+  destruct t as [|a|a|a]; try done.
+  - destruct (wd_archs d !! a); [|done]. by destruct (id_ok _ _ _).
+  - destruct (wd_archs d !! a); [|done]. by destruct (debug cfg && _).
+Qed.
+
+Lemma dispatch_world_cases d k ky : match dispatch_world d k ky with
+  | ROk (a, h) => ky = KTyped a h \/ ky = KAny h
+  | RPanic p => p = PInvalidType
+  | RUB => match ky with KStop _ => True | _ => False end end.
+Proof.
+  destruct ky as [h|a h|o]; cbn [dispatch_world]; [|by left|done].
+  destruct (find_arch _ _); [by right|]. done.
+Qed.
+
+Lemma dispatch_arch_cases d k b ky h : dispatch_arch d k b ky = Some h -> ky = KTyped b h \/ ky = KAny h.
+Proof.
+  destruct ky as [h'|a h'|o]; cbn [dispatch_arch]; [| |done].
+  - destruct (wd_archs d !! b); [|done]. destruct arch_dispatch_checks_id; [destruct (id_ok _ _ _)|]; intros [= ->]; by right.
+  - destruct (Nat.eqb_spec a b) as [->|]; [|done]. intros [= ->]. by left.
+Qed.
+
+Lemma resolve_for_cases cfg k s h : Inv s -> key32 h ->
+  match resolve_for cfg k s h with
+  | ROk (Some d) => d < len s
+  | ROk None => True
+  | RPanic p => p = PDebug /\ debug cfg = true
+  | RUB => False
+  end.
+Proof.
+  intros HI Hk. pose proof (resolve_key_cases cfg k s h HI Hk) as Hc. unfold resolve_for.
+  destruct (resolve_key cfg k s h) as [[[si dd]|]|p|]; try done.
+  destruct Hc as (e & He & _ & Hd & _).
+  assert ((N.of_nat (len s) <=? MAX_DATA_CAPACITY)%N = true) as ->.
+  { apply N.leb_le. pose proof (i_cap s HI). pose proof (i_le s HI). lia. }
+  assert ((dd <=? len s) = true) as -> by (apply Nat.leb_le; lia). done.
+Qed.
+
+Lemma read_entity_some s i : Inv s -> i < len s -> exists e r, read_entity s i = Some (i, e, r) /\ abs_at s i = Some (e, r).
+Proof.
+  intros HI Hi. destruct (abs_at_some s i HI Hi) as (e & r & Ha & He & Hr). exists e, r. split; [|done].
+  unfold read_entity.
+  assert ((len s <=? length (ents s)) = true) as -> by (apply Nat.leb_le; rewrite (i_lents s HI); lia).
+  rewrite (forallb_cols_len (len s) (len s) (cols s) (i_lcols s HI)) by lia.
+  assert ((i <? len s) = true) as -> by (by apply Nat.ltb_lt). cbn [negb orb].
+  unfold abs_at in Ha. destruct (ents s !! i); [|done]. destruct (row_at (cols s) i); [|done]. by injection Ha as -> ->.
+Qed.
+
+Lemma to_direct_cases cfg k s h : Inv s -> hpair32 h ->
+  match to_direct cfg k s h with
+  | ROk (Some dh) => hpair32 dh
+  | ROk None => True
+  | RPanic p => p = PDebug /\ debug cfg = true
+  | RUB => False
+  end.
+Proof.
+  intros HI Hh. pose proof (resolve_key_cases cfg k s h HI (hpair32_key32 h Hh)) as Hc.
+  destruct k; cbn [resolve_key to_direct] in *.
+  - destruct (resolve_entity cfg s h) as [[[si dd]|]|p|]; try done.
+    destruct Hc as (e & He & _ & Hd & _). destruct (hdense_direct_of s dd HI Hd) as [_ Hk].
+    split; [exact Hk|]. cbn [snd]. apply (i_ver s HI).
+  - destruct to_direct_of_direct_validates; [|done].
+    destruct (resolve_direct cfg s h) as [[[si dd]|]|p|]; done.
+Qed.
+
+Lemma rmap_not_ub {A} (r : rres A) f : r <> RUB -> match rmap r f with ROk _ => True | _ => False end.
+Proof. by destruct r. Qed.
+
+Lemma rapp_ok a b : (exists x, a = ROk x) -> (exists y, b = ROk y) -> exists z, rapp a b = ROk z.
+Proof. intros [x ->] [y ->]. by eexists. Qed.
+
+Lemma o_contains_ok cfg k s h : Inv s -> key32 h -> exists x, o_contains cfg k s h = ROk x.
+Proof.
+  intros HI Hk. pose proof (resolve_for_cases cfg k s h HI Hk) as Hc. unfold o_contains.
+  destruct (resolve_for cfg k s h) as [o|p|]; cbn [rmap]; [by eexists|by eexists|done].
+Qed.
+Lemma o_resolve_ok cfg k s h : Inv s -> key32 h -> exists x, o_resolve cfg k s h = ROk x.
+Proof.
+  intros HI Hk. pose proof (resolve_for_cases cfg k s h HI Hk) as Hc. unfold o_resolve.
+  destruct (resolve_for cfg k s h) as [o|p|]; cbn [rmap]; [by eexists|by eexists|done].
+Qed.
+Lemma o_to_direct_ok cfg k s h : Inv s -> hpair32 h -> exists x, o_to_direct cfg k s h = ROk x.
+Proof.
+  intros HI Hk. pose proof (to_direct_cases cfg k s h HI Hk) as Hc. unfold o_to_direct.
+  destruct (to_direct cfg k s h) as [o|p|]; cbn [rmap]; [by eexists|by eexists|done].
+Qed.
+Lemma o_view_ok cfg k s h : Inv s -> key32 h -> exists x, o_view cfg k s h = ROk x.
+Proof.
+  intros HI Hk. pose proof (resolve_for_cases cfg k s h HI Hk) as Hc. unfold o_view.
+  destruct (resolve_for cfg k s h) as [[dd|]|p|]; [|by eexists|by eexists|done].
+  destruct (read_entity_some s dd HI Hc) as (e & r & -> & _). by eexists.
+Qed.
+Lemma probe_find_ok cfg k s h : Inv s -> key32 h -> exists x, probe_find cfg k s h = ROk x.
+Proof.
+  intros HI Hk. pose proof (resolve_for_cases cfg k s h HI Hk) as Hc. unfold probe_find.
+  destruct (resolve_for cfg k s h) as [[dd|]|p|]; [|by eexists|by eexists|done].
+  destruct (read_entity_some s dd HI Hc) as (e & r & -> & _). by eexists.
+Qed.
+
+(** No lookup path reaches undefined behaviour on an invariant storage, whatever the 32-bit key. *)
+Lemma probe_world_ok cfg typed k s h : Inv s -> hpair32 h -> exists x, probe_storage_world cfg typed k s h = ROk x.
+Proof.
+  intros HI Hh. pose proof (hpair32_key32 h Hh) as Hk. unfold probe_storage_world.
+  apply rapp_ok; [by apply o_contains_ok|]. apply rapp_ok; [by apply o_to_direct_ok|].
+  apply rapp_ok; [destruct typed; [apply rapp_ok; by apply o_view_ok|by eexists]|].
+  apply rapp_ok; by apply probe_find_ok.
+Qed.
+Lemma probe_arch_ok cfg k s h : Inv s -> hpair32 h -> exists x, probe_storage_arch cfg k s h = ROk x.
+Proof.
+  intros HI Hh. pose proof (hpair32_key32 h Hh) as Hk. unfold probe_storage_arch.
+  apply rapp_ok; [by apply o_contains_ok|]. apply rapp_ok; [by apply o_resolve_ok|]. apply rapp_ok; [by apply o_to_direct_ok|].
+  apply rapp_ok; by apply o_view_ok.
+Qed.
+
+Lemma after_drop_inv d ad st o st' o' : RInv d st -> after_drop d ad st o = (st', o') -> RInv d st'.
+Proof. unfold after_drop. destruct (drop_row _ _) as [fired din]. intros HR [= <- _]. by apply RInv_set_drop_in. Qed.
+
+Definition keyed_op (o : op) : option (lvl * kind * ty * href) :=
+  match o with ODestroy l k t r | OProbe l k t r | OToDirect l k t r => Some (l, k, t, r) | _ => None end.
+
+Lemma step_keyed_inv cfg d qs st o l k t r : keyed_op o = Some (l, k, t, r) -> wf_href r -> RInv d st ->
+  match step cfg d qs st o with Some (st', _) => RInv d st' | None => False end.
+Proof.
+  intros Ho Hr HR.
+  assert (Hstep : step cfg d qs st o = step cfg d qs st o) by done.
+  destruct o; try done; injection Ho as -> -> -> ->.
+  all: step_start Hcw HW HR.
+  all: destruct (get_href st k r) as [h0|] eqn:Hg; [|done].
+  all: pose proof (get_href_pair32 d st k r h0 HR Hr Hg) as Hh0.
+  all: pose proof (make_key_handle cfg d k t h0) as Hmk.
+  all: destruct (make_key cfg d k t h0) as [kh|ka kh|obs] eqn:Hky; [| |done].
+  all: subst kh.
+  all: match goal with |- context [if ?c then _ else _] => destruct c; [done|] end.
+  all: match goal with |- match match ?tg with _ => _ end with _ => _ end =>
+         assert (Htg : match tg with ROk (Some (a, h)) => h = h0 | RUB => False | _ => True end) end.
+  1,3,5,7,9,11: destruct l as [|b];
+       [match goal with |- context [dispatch_world _ _ ?ky] => pose proof (dispatch_world_cases d k ky) as Hd;
+          destruct (dispatch_world d k ky) as [[a h]|p|]; [destruct Hd as [[= _ ->]|[= ->]]; done|done|done] end
+       |match goal with |- context [dispatch_arch _ _ _ ?ky] => pose proof (dispatch_arch_cases d k b ky) as Hd;
+          destruct (dispatch_arch d k b ky) as [h|]; [cbn [fmap option_fmap option_map]; destruct (Hd h eq_refl) as [[= _ ->]|[= ->]]; done|done] end].
+  all: match goal with |- match match ?tg with _ => _ end with _ => _ end => destruct tg as [[[a h]|]|p|]; [subst h|done|done|done] end.
+  all: destruct (wd_archs d !! a) as [ad|] eqn:Ha; [|done]; destruct (w !! a) as [s|] eqn:Hs; [|done].
+  all: pose proof (WInv_lookup d w a ad s HW Ha Hs) as HS; pose proof HS as (HI & _).
+  (* destroy *)
+  1,2: pose proof (destroy_SInv cfg k ad s h0 HS (hpair32_key32 h0 Hh0)) as Hds;
+       destruct (destroy cfg k s h0) as [s' [row|]|p s'|]; [|done| |done];
+       [match goal with |- context [after_drop _ _ ?st1 ?full] => destruct (after_drop d ad st1 full) as [st2 obs] eqn:Had;
+          eapply after_drop_inv; [|exact Had]; apply RInv_set_world; [done|by eapply WInv_upd] end
+       |subst s'; apply RInv_set_world; [done|by eapply WInv_upd]].
+  (* probe *)
+  1,2: match goal with |- context [probe_storage_world _ ?ty _ _ _] =>
+         destruct l; [destruct (probe_world_ok cfg ty k s h0 HI Hh0) as [x ->]|destruct (probe_arch_ok cfg k s h0 HI Hh0) as [x ->]]; done end.
+  (* to_direct *)
+  1,2: pose proof (to_direct_cases cfg k s h0 HI Hh0) as Htd;
+       destruct (to_direct cfg k s h0) as [[dh|]|p|]; [|done|done|done];
+       apply RInv_add_directs; [done|by constructor].
+Qed.
